@@ -47,7 +47,18 @@ func ruleDetachedOperands(c *Ctx, rule string, funcs ...string) {
 							continue
 						}
 						call, ok := unparen(x.Rhs[0]).(*ast.CallExpr)
-						if !ok || !isExprFunX1(typeOrInvalid(info, call.Fun)) {
+						if !ok {
+							continue
+						}
+						// dup(F(env)) detaches on the spot
+						if fn := calleeOf(info, call); fn != nil && funcFullName(fn) == "fast.dup" && len(call.Args) == 1 {
+							if inner, ok := unparen(call.Args[0]).(*ast.CallExpr); ok && isExprFunX1(typeOrInvalid(info, inner.Fun)) {
+								n++
+								c.Ob(rule, fmt.Sprintf("%s/operand#%d", fk, n), x, true, "the value of a compiled expression kept for the later call is detached with dup()")
+								continue
+							}
+						}
+						if !isExprFunX1(typeOrInvalid(info, call.Fun)) {
 							continue
 						}
 						n++
@@ -231,7 +242,7 @@ func ruleReturnParallel(c *Ctx, rule string) {
 						}
 					}
 				}
-				if !d {
+				if !d && !copiedWhenSettable(info, lit.Body, call) {
 					detached = false
 				}
 			case isSetter(ft):
